@@ -42,6 +42,11 @@ type Fail struct{ Sig, Msg string }
 
 func Failf(sig, format string, a ...any) *Fail { return &Fail{sig, fmt.Sprintf(format, a...)} }
 
+// Prune is returned by Apply for a transition that is outside the property's
+// preconditions (e.g. the reference implementation itself panics): the successor is
+// silently dropped, it is neither a violation nor a state.
+var Prune = &Fail{Sig: "__prune__"}
+
 // Sys is one fresh harness instance: the real object(s) and the reference model.
 type Sys interface {
 	// Ops lists the operations offered in the current state (the bounded alphabet).
@@ -60,6 +65,9 @@ type Config struct {
 	Name      string
 	New       func() Sys
 	MaxStates int // cap; 0 = none
+	// OnState, if set, is called once per distinct state with the shortest path reaching it
+	// (not concurrently).
+	OnState func(path []Op)
 	// GoTest renders a failing path as a plain Go test (optional).
 	GoTest func(path []Op) string
 }
@@ -67,7 +75,7 @@ type Config struct {
 type Result struct {
 	States, Transitions, MaxDepth int
 	Exhaustive                    bool
-	Fails                         int
+	Fails, Pruned                 int
 }
 
 type node struct {
@@ -155,8 +163,11 @@ func Explore(r *ev.Run, cfg Config) Result {
 		}
 	}
 	frontier := []*node{root}
+	if cfg.OnState != nil {
+		cfg.OnState(nil)
+	}
 	res.States = 1
-	var transitions int64
+	var transitions, pruned int64
 
 	slots := make([]*slot, workers)
 	for i := range slots {
@@ -225,6 +236,10 @@ func Explore(r *ev.Run, cfg Config) Result {
 						sl.busy = false
 						sl.mu.Unlock()
 						atomic.AddInt64(&transitions, 1)
+						if fl == Prune {
+							atomic.AddInt64(&pruned, 1)
+							continue
+						}
 						if fl != nil {
 							v := ev.Violation{Sig: cfg.Name + "|" + fl.Sig, Msg: fmt.Sprintf("after %v: %s", full, fl.Msg), Replay: replayDoc{cfg.Name, full}}
 							if cfg.GoTest != nil {
@@ -251,6 +266,11 @@ func Explore(r *ev.Run, cfg Config) Result {
 		}
 		wg.Wait()
 		res.States += len(next)
+		if cfg.OnState != nil {
+			for _, n := range next {
+				cfg.OnState(n.path())
+			}
+		}
 		if len(next) > 0 {
 			res.MaxDepth = next[0].depth
 			if sampled < 4 {
@@ -261,6 +281,7 @@ func Explore(r *ev.Run, cfg Config) Result {
 		frontier = next
 	}
 	res.Transitions = int(transitions)
+	res.Pruned = int(pruned)
 	return res
 }
 
@@ -320,7 +341,7 @@ func watchdog(r *ev.Run, cfg Config, slots []*slot, stop chan struct{}) {
 		}
 		if suspect == nil {
 			runtime.ReadMemStats(&ms)
-			if ms.HeapAlloc > 24<<30 {
+			if ms.HeapAlloc > 6<<30 {
 				// runaway allocation: blame the longest-running transition
 				var oldest time.Time
 				for _, sl := range slots {
